@@ -3,6 +3,7 @@ import Driver.Ops.Crc
 import Driver.Ops.Lz4
 import Driver.Ops.Schema
 import Driver.Ops.Simd
+import Driver.Ops.Stats
 /-
 Line-protocol driver.  One harness line in (operation, inputs, and what the real code
 returned), one verdict line out.  See Carquet/Util.lean for the syntax.
@@ -13,7 +14,8 @@ def handlers : List (Line → Option Verdict) :=
   [ Driver.Ops.Crc.handle,
     Driver.Ops.Lz4.handle,
     Driver.Ops.Schema.handle,
-    Driver.Ops.Simd.handle ]
+    Driver.Ops.Simd.handle,
+    Driver.Ops.Stats.handle ]
 
 def stepLine (s : String) : String :=
   match parseLine s with
